@@ -23,7 +23,7 @@ def string_labels(c, rng):
 def run(ctx):
     # (a) + (c) in-process
     for sim in allsims.SIMS:
-        for _ in range(ctx.scale(12, 120)):
+        for _ in range(ctx.scale(25, 150)):
             c = allsims.gen_case(ctx.rng, sim)
             if ctx.rng.random() < 0.5:
                 string_labels(c, ctx.rng)
@@ -54,7 +54,7 @@ def run(ctx):
     # (d) cross-process, hash seeds
     jobs = []
     for sim in CONT:
-        for _ in range(ctx.scale(4, 30)):
+        for _ in range(ctx.scale(8, 40)):
             c = allsims.gen_case(ctx.rng, sim)
             string_labels(c, ctx.rng)
             c["container"] = ctx.rng.choice(["list", "set"]) if c.get("init", {}).get("kind") == "list" else "list"
